@@ -129,6 +129,8 @@ def warm_caches(root, archs, isa_files=("x86", "aarch64"), workers=16):
     from concurrent.futures import ProcessPoolExecutor
     import multiprocessing as mp
     jobs = [(root, a, False) for a in archs] + [(root, i, True) for i in isa_files]
+    if not jobs:
+        return
     ctx = mp.get_context("fork")
     with ProcessPoolExecutor(max_workers=min(workers, len(jobs)), mp_context=ctx) as ex:
         list(ex.map(_warm_one, jobs))
